@@ -193,7 +193,7 @@ def consumers(ctx, rule='A5c'):
            'the analyzer is told which selection choices are fixed (so that correction never moves them)', '')
     m, t = src('get_all_discrete_x')
     ok = 'self._existence_mask if with_fixed else self._existence_infeasibility_mask' in t and \
-        'if i not in fixed_values' in t and 'values[[fixed_values[dv_idx]], :]' in t and \
+        'i not in fixed_values' in t and 'values[[fixed_values[dv_idx]], :]' in t and \
         'fixed_values = self._fixed_values if with_fixed else {}' in t
     ctx.ob(rule, fkey(m, rule, 'enumeration-filter'), ok, m.where,
            'the enumeration keeps the combinations of the fixed-mask, expands a fixed discrete design-variable '
@@ -219,7 +219,17 @@ def consumers(ctx, rule='A5c'):
     # complete analyzer: mask of combinations with the fixed option
     f = ctx.fn(f'{COMPLETE}._get_available_combinations_mask')
     t = FnText(ctx, f)
-    ok = 'if its.scenario.opt_idx_combinations[its.i_usi][its.i_comb, i_ch[0]] == i_opt' in t and 'fixed_comb_set & fixed_comb_set_i' in t and 'fixed_comb_set_i |= its.i_set' in t
+    # structural form: combinations whose option index equals the fixed one are gathered per fixed choice (union of
+    # the iteration-spec sets) and the per-choice sets are intersected (every fixed choice must have its value)
+    unit_nodes = [x for u in unit_functions(ctx.prog, f) for x in ast.walk(u.node)]
+    eq = [x for x in unit_nodes if isinstance(x, ast.Compare) and len(x.ops) == 1 and isinstance(x.ops[0], ast.Eq) and
+          'opt_idx_combinations' in norm(x.left) + norm(x.comparators[0])]
+    inter = [x for x in unit_nodes if (isinstance(x, (ast.BinOp, ast.AugAssign)) and isinstance(x.op, ast.BitAnd)) or
+             (isinstance(x, ast.Call) and call_name(x) in ('intersection', 'intersection_update'))]
+    union = [x for x in unit_nodes if (isinstance(x, (ast.BinOp, ast.AugAssign)) and isinstance(x.op, ast.BitOr) and
+                                       'i_set' in norm(x)) or
+             (isinstance(x, ast.Call) and call_name(x) in ('union', 'update') and 'i_set' in norm(x))]
+    ok = bool(eq) and bool(inter) and bool(union)
     ctx.ob(rule, fkey(f, rule, 'available-combinations'), ok, f.where,
            'a combination is available iff for every fixed choice some scenario containing it selects exactly '
            'the fixed option (union within a choice, intersection across choices)', '')
